@@ -80,6 +80,10 @@ func AnswerRounds(s Source, steps []Step, callers []CallSpec, errEvery int) ([]S
 			group := order[:n]
 			order = order[n:]
 			st := Step{Op: "answer", Container: s.Int("container", 2) == 1}
+			if st.Container && s.Int("nested", 4) == 0 {
+				st.Nested = true
+				feats["nested-container"]++
+			}
 			for _, tg := range group {
 				it := AnsItem{Tag: tg, Gzip: s.Int("gzip", 3) == 0}
 				if errEvery > 0 && s.Int("err", errEvery) == 0 {
